@@ -102,6 +102,213 @@ Proof.
 Qed.
 
 (* ------------------------------------------------------------------ *)
+(** * one RouteParams object dispatched again and again (recycled message, nested routers) *)
+
+(* which handler runs (the whole trace) does not depend on the RouteParams the
+   request carries: ServeCOAP takes the path from the Uri-Path options *)
+Lemma serve_into_trace st mws order segs p0 :
+  fst (serve_into st mws order segs p0) = fst (serve st mws order segs).
+Proof. reflexivity. Qed.
+
+Lemma serve_into_params st mws order segs p0 :
+  let path := filter_path (path_of segs) in
+  snd (serve_into st mws order segs p0) = match_into (scan order path None O) path p0.
+Proof. reflexivity. Qed.
+
+Lemma last_binding_acc : forall ns vs k acc,
+  last_binding ns vs k acc =
+  match last_binding ns vs k None with Some v => Some v | None => acc end.
+Proof.
+  induction ns as [|n ns IH]; intros vs k acc; cbn [last_binding]; [reflexivity|].
+  destruct vs as [|v vs]; [reflexivity|].
+  destruct (str_eqb n k); [|apply IH].
+  rewrite (IH vs k (Some v)). destruct (last_binding ns vs k None); reflexivity.
+Qed.
+
+(* Match on a used RouteParams: Path and PathTemplate are overwritten, every
+   variable of the selected route gets the value it gets in a NEW RouteParams,
+   every other name keeps what the object held *)
+Theorem reused_params r path p0 :
+  rp_path (match_into (Some r) path p0) = path /\
+  rp_tmpl (match_into (Some r) path p0) = r_pat r /\
+  forall k, vlookup (rp_map (match_into (Some r) path p0)) k =
+            match vlookup (rp_map (match_into (Some r) path rp_new)) k with
+            | Some v => Some v
+            | None => vlookup (rp_map p0) k
+            end.
+Proof.
+  split; [reflexivity|]. split; [reflexivity|]. intros k.
+  cbn [match_into]. unfold rp_map, rp_new. cbn [rp_vars].
+  destruct (extract r path) as [vals|].
+  - rewrite !vars_map_lookup. cbn [vlookup]. apply last_binding_acc.
+  - reflexivity.
+Qed.
+
+Lemma run_reuse_app mws : forall a b st p,
+  run_reuse st mws (a ++ b) p =
+  run_reuse st mws a p ++ run_reuse (apply_ops st (hops a)) mws b (reuse_params st mws a p).
+Proof.
+  induction a as [|s a IH]; intros b st p; [reflexivity|].
+  destruct s as [o|segs order]; cbn [app run_reuse reuse_params].
+  - rewrite IH. reflexivity.
+  - rewrite IH. reflexivity.
+Qed.
+
+Lemma run_reuse_length mws : forall h st p, length (run_reuse st mws h p) = hserves h.
+Proof.
+  induction h as [|s h IH]; intros st p; [reflexivity|].
+  destruct s as [o|segs order]; cbn [run_reuse]; unfold hserves in *; cbn [filter length]; now rewrite IH.
+Qed.
+
+(* the k-th dispatch of ANY history in which one RouteParams object is handed
+   from dispatch to dispatch, starting from ANY content [p0] (new, or what an
+   outer router wrote): the handler trace is that of a dispatch with a new
+   RouteParams on a router on which only the operations before it were
+   performed -- so the property predicate holds for it with the RouteParams of
+   that dispatch --, and the object afterwards is [match_into] of the selected
+   route for the CURRENT path applied to what the object held *)
+Theorem reuse_dispatch st0 mws pre segs order post p0 : wf st0 ->
+  let st := apply_ops st0 (hops pre) in
+  let p := reuse_params st0 mws pre p0 in
+  let path := filter_path (path_of segs) in
+  let out := serve_into st mws order segs p in
+  nth_error (run_reuse st0 mws (pre ++ HServe segs order :: post) p0) (hserves pre) = Some out /\
+  fst out = fst (serve st mws order segs) /\
+  snd out = match_into (scan order path None O) path p /\
+  (Permutation order (routes_of st) ->
+   dispatch_class (sregs_of st) (st_default st) mws path
+     (fst out) (snd (serve st mws order segs)) = 0%N).
+Proof.
+  intros Hwf st p path out. split; [|split; [|split]].
+  - rewrite run_reuse_app. cbn [run_reuse]. fold st. fold p. fold out.
+    rewrite nth_error_app2 by (rewrite run_reuse_length; lia).
+    rewrite run_reuse_length, Nat.sub_diag. reflexivity.
+  - reflexivity.
+  - reflexivity.
+  - intros Hp. change (fst out) with (fst (serve st mws order segs)).
+    apply dispatch_spec; [|exact Hp]. unfold st. now apply apply_ops_wf.
+Qed.
+
+Lemma filter_andb {A} (f g : A -> bool) l : filter (fun x => f x && g x) l = filter g (filter f l).
+Proof.
+  induction l as [|a l IH]; [reflexivity|]. cbn [filter].
+  destruct (f a); cbn [andb filter]; [destruct (g a)|]; now rewrite IH.
+Qed.
+
+Lemma nodup_fst_filter {A B} (f : A * B -> bool) l : NoDup (map fst l) -> NoDup (map fst (filter f l)).
+Proof.
+  induction l as [|a l IH]; intros H; [constructor|]. cbn [map] in H.
+  inversion H as [|? ? Hni Hnd]; subst. cbn [filter]. destruct (f a); [|now apply IH].
+  cbn [map]. constructor; [|now apply IH]. intros Hin. apply Hni.
+  apply in_map_iff in Hin as (x & Ex & Hx). apply filter_In in Hx as [Hx _].
+  apply in_map_iff. exists x. now split.
+Qed.
+
+Lemma last_binding_in : forall ns vs k, length ns = length vs -> In k ns ->
+  exists v, last_binding ns vs k None = Some v.
+Proof.
+  induction ns as [|n ns IH]; intros vs k Hl Hin; [destruct Hin|].
+  destruct vs as [|v vs]; [discriminate|]. cbn [last_binding]. cbn in Hl.
+  destruct (str_eqb n k) eqn:E.
+  - rewrite last_binding_acc. destruct (last_binding ns vs k None) as [v'|]; eauto.
+  - apply IH; [lia|]. destruct Hin as [->|Hin]; [|exact Hin].
+    rewrite str_eqb_refl in E. discriminate.
+Qed.
+
+Lemma restrict_is_map names vals m0 : length names = length vals -> NoDup (map fst m0) ->
+  is_map_of names vals (restrict_vars names (vars_map names vals m0)) = true.
+Proof.
+  intros Hl Hnd0.
+  assert (HndM : NoDup (map fst (vars_map names vals m0))) by (now apply vars_map_nodup).
+  unfold is_map_of. rewrite nodup_fix_eq. rewrite !andb_true_iff. split; [split|].
+  - apply forallb_forall. intros [k v] Hin. cbn [fst snd].
+    apply filter_In in Hin as [Hin Hk]. cbn [fst] in Hk.
+    apply existsb_exists in Hk as (n & Hn & En). apply str_eqb_eq in En. subst n.
+    pose proof (vlookup_in _ _ _ HndM Hin) as E. rewrite vars_map_lookup, last_binding_acc in E.
+    destruct (last_binding_in names vals k Hl Hn) as (v' & Ev). rewrite Ev in E |- *.
+    injection E as ->. apply str_eqb_refl.
+  - apply forallb_forall. intros n Hn. apply existsb_exists.
+    assert (Hk : In n (map fst (vars_map names vals m0))) by (apply vars_map_keys; auto).
+    apply in_map_iff in Hk as (kv & Ek & Hkv). exists kv. split; [|rewrite Ek; apply str_eqb_refl].
+    apply filter_In. split; [exact Hkv|]. apply existsb_exists. exists n. split; [exact Hn|].
+    rewrite Ek. apply str_eqb_refl.
+  - apply keys_distinct_nodup. unfold restrict_vars. now apply nodup_fst_filter.
+Qed.
+
+(* the predicate for used RouteParams objects holds on the model's output:
+   every reachable router, every middleware list, every iteration order, every
+   request, every content of the object handed in (a Go map: no key twice);
+   handler identities as the harness uses them: the default handler is not also
+   the handler of a route *)
+Theorem reuse_spec st mws order segs p0 : wf st -> Permutation order (routes_of st) ->
+  NoDup (map fst (rp_map p0)) ->
+  (forall r d, In r (routes_of st) -> st_default st = Some d -> r_h r <> d) ->
+  let path := filter_path (path_of segs) in
+  let out := serve_into st mws order segs p0 in
+  reuse_class (sregs_of st) (st_default st) mws path (fst out) (rp_obs (snd out)) = 0%N.
+Proof.
+  intros Hwf Hp Hnd0 Hids path out. unfold out, serve_into. fold path.
+  destruct (scan order path None O) as [r|] eqn:E; cbn [fst snd].
+  - assert (Hmax : maximal_match (routes_of st) path r) by (apply scan_exact; eauto).
+    destruct Hmax as (Hin & Hm & Hmax).
+    destruct (match_result_vars r path Hm) as (vals & Hex & Hd & Hlen & _).
+    unfold reuse_class. rewrite run_chain_spec.
+    destruct (snd (passing_prefix mws)) eqn:Epass; cbn [negb].
+    2:{ rewrite (spec_trace_block mws (Some (r_h r))) by assumption. now rewrite trace_eqb_refl. }
+    rewrite spec_trace_pass by assumption.
+    assert (Hnn : is_nil path = false) by apply filter_path_nonnil.
+    unfold rp_obs. cbn [match_into rp_path rp_tmpl]. rewrite Hnn, !andb_false_r. rewrite Hex.
+    match goal with |- context [rp_map (mkRp ?a ?b (Some ?m))] => change (rp_map (mkRp a b (Some m))) with m end.
+    rewrite filter_andb. unfold sregs_of. rewrite (filter_unique r _ (wf_pats st Hwf) Hin).
+    cbn [filter]. change (s_h (sroute_of r)) with (r_h r). rewrite Z.eqb_refl.
+    unfold dispatch_class. rewrite (filter_unique r _ (wf_pats st Hwf) Hin).
+    change (s_parts (sroute_of r)) with (r_parts r). change (s_pat (sroute_of r)) with (r_pat r).
+    change (s_h (sroute_of r)) with (r_h r).
+    rewrite spec_matches_iff, Hm. cbn [negb].
+    match goal with |- context [existsb ?f ?l] => destruct (existsb f l) eqn:Eex end.
+    { exfalso. apply existsb_exists in Eex as (x & Hx & Hlt). apply filter_In in Hx as [Hx Hsm].
+      apply in_map_iff in Hx as (r' & <- & Hr'). change (s_parts (sroute_of r')) with (r_parts r') in Hsm.
+      rewrite spec_matches_iff in Hsm. change (s_pat (sroute_of r')) with (r_pat r') in Hlt.
+      apply Nat.ltb_lt in Hlt. specialize (Hmax r' Hr' Hsm). lia. }
+    rewrite str_eqb_refl. cbn [andb].
+    assert (Hv : vars_ok (sroute_of r) path
+                   (restrict_vars (var_names (r_parts r)) (vars_map (var_names (r_parts r)) vals (rp_map p0))) = true).
+    { unfold vars_ok. apply existsb_exists. exists vals. split; [now apply decomps_spec|].
+      apply restrict_is_map; [now symmetry|exact Hnd0]. }
+    rewrite Hv. cbn [negb]. rewrite Epass. rewrite spec_trace_pass by assumption.
+    rewrite Z.eqb_refl. cbn [negb]. now rewrite trace_eqb_refl.
+  - assert (Hno : forall r, In r (routes_of st) -> path_match r path = false).
+    { intros r Hin. eapply scan_none; [exact E|]. eapply Permutation_in; [symmetry|]; eauto. }
+    assert (Hf : filter (fun r => spec_matches (s_parts r) path) (sregs_of st) = []).
+    { unfold sregs_of. now apply filter_nomatch. }
+    cbn [match_into]. unfold reuse_class.
+    destruct (snd (passing_prefix mws)) eqn:Epass; cbn [negb].
+    2:{ destruct (st_default st) as [d|].
+        - rewrite run_chain_spec, (spec_trace_block mws (Some d)) by assumption. now rewrite trace_eqb_refl.
+        - rewrite Hf. cbn [is_nil andb]. now destruct (list_eqb ev_eqb [] (spec_trace mws None)). }
+    assert (Hrouted :
+      match rp_obs p0, handlers_of (match st_default st with Some _ => run_chain mws (st_default st) | None => [] end) with
+      | Some (p, tmpl, vars), [h] =>
+          match filter (fun r => str_eqb (s_pat r) tmpl && (s_h r =? h)) (sregs_of st) with
+          | r :: _ => Some (p, tmpl, restrict_vars (var_names (s_parts r)) vars)
+          | [] => None
+          end
+      | _, _ => None
+      end = None).
+    { destruct (rp_obs p0) as [[[p tmpl] vars]|]; [|reflexivity].
+      destruct (st_default st) as [d|] eqn:Ed; [|reflexivity].
+      rewrite run_chain_spec, spec_trace_pass by assumption.
+      destruct (filter (fun r : sroute => str_eqb (s_pat r) tmpl && (s_h r =? d)) (sregs_of st)) as [|x l] eqn:Ef; [reflexivity|]. exfalso.
+      assert (Hx : In x (x :: l)) by now left. rewrite <- Ef in Hx.
+      apply filter_In in Hx as [Hx Hc]. apply andb_true_iff in Hc as [_ Hh]. apply Z.eqb_eq in Hh.
+      unfold sregs_of in Hx. apply in_map_iff in Hx as (r' & <- & Hr').
+      change (s_h (sroute_of r')) with (r_h r') in Hh. exact (Hids r' d Hr' eq_refl Hh). }
+    rewrite Hrouted.
+    pose proof (dispatch_spec st mws order segs Hwf Hp) as D. cbn zeta in D. unfold serve in D. fold path in D.
+    rewrite E in D. cbn [finish_serve fst snd match_result] in D. exact D.
+Qed.
+
+(* ------------------------------------------------------------------ *)
 (** * fine-grained locking *)
 
 Definition count {A} (f : A -> bool) (l : list A) : nat := length (filter f l).
